@@ -54,7 +54,9 @@ fn value_matches(pat: &Value, actual: Option<&str>) -> bool {
 
 impl Finding {
     pub fn matches(&self, v: &Violation) -> bool {
-        if self.status != "open" || self.property != v.property {
+        // property "*": a crash site that any check may run into while it drives the database
+        // (a panic is reported under the property whose check observed it)
+        if self.status != "open" || (self.property != v.property && self.property != "*") {
             return false;
         }
         for (k, pat) in &self.pattern {
